@@ -20,6 +20,19 @@ pub unsafe extern "C" fn clock_gettime(clk: libc::clockid_t, ts: *mut libc::time
     libc::syscall(libc::SYS_clock_gettime, clk as libc::c_long, ts) as libc::c_int
 }
 
+/// Interposed `getrandom(2)` (see detrand.rs): identity unless a check on this thread asked for a
+/// deterministic stream. The `getrandom` crate finds it with dlsym(RTLD_DEFAULT), build.rs exports it.
+///
+/// # Safety
+/// Same contract as the libc function it replaces.
+#[no_mangle]
+pub unsafe extern "C" fn getrandom(buf: *mut libc::c_void, len: libc::size_t, flags: libc::c_uint) -> libc::ssize_t {
+    if vcheck::detrand::fill(buf, len) {
+        return len as libc::ssize_t;
+    }
+    libc::syscall(libc::SYS_getrandom, buf, len, flags) as libc::ssize_t
+}
+
 /// the simulated runtime is only sound if std's clocks really go through the interposer
 fn interposition_self_test() -> bool {
     let _g = clock::VirtualClock::start(1_700_000_000);
